@@ -858,6 +858,16 @@ func (ctx *EvalCtx) call(e *CExpr) TV {
 		return TV{t: app("mk-iface", intLit(int64(vc.eng.typeTag(x.typ))), x.t), typ: types.NewInterfaceType(nil, nil)}
 	case "arr":
 		return intTV(app("s.arr", arg(0).t))
+	case "spawnarg":
+		// spawnarg(k, i, T): i-th argument (receiver first for method spawns) of the k-th go statement
+		k := arg(0)
+		g := vc.parseType(e.Args[2].String(), ctx.pkg)
+		srt := vc.gsort(g)
+		key := fmt.Sprintf("G:spawnarg%s:%s", e.Args[1].String(), srt)
+		return TV{t: app("select", vc.comp(ctx.st, key, "(Array Int "+srt+")"), k.t), g: g, typ: goOf(g)}
+	case "methodid":
+		// methodid("<full method name>"): identity used in the spawn log for interface method spawns
+		return intTV(intLit(int64(vc.eng.methodID(e.Args[0].Name))))
 	case "$cnt", "$idx":
 		lf := vc.lastFilter
 		if lf == nil || !lf.hasWhere {
